@@ -23,12 +23,12 @@ EXTENDS ClientFn
 CONSTANT Dev
 
 VARIABLES violates,  \* the request breaks a facet
-          creds,     \* credentials configured
+          creds,     \* credentials configured: "none" | "user" | "empty_user" (a password only, e.g. a token)
           script,    \* the server's behaviour
           pc, conns, requests, result
 vars == <<violates, creds, script, pc, conns, requests, result>>
 
-Init == /\ violates \in BOOLEAN /\ creds \in BOOLEAN /\ script \in Scripts
+Init == /\ violates \in BOOLEAN /\ creds \in {"none", "user", "empty_user"} /\ script \in Scripts
         /\ pc = "check" /\ conns = 0 /\ requests = <<>> /\ result = "none"
 
 Check == /\ pc = "check"
@@ -39,7 +39,7 @@ Connect == /\ pc = "connect"
               ELSE pc' = "send" /\ conns' = conns + 1 /\ UNCHANGED result
            /\ UNCHANGED <<violates, creds, script, requests>>
 Send == /\ pc = "send"
-        /\ requests' = Append(requests, [method |-> "POST", auth |-> creds, body |-> "ser(req)"])
+        /\ requests' = Append(requests, [method |-> "POST", auth |-> (creds # "none"), body |-> "ser(req)"])
         /\ IF script.k = "close_before" THEN pc' = "ret" /\ result' = "err_http" ELSE pc' = "status" /\ UNCHANGED result
         /\ UNCHANGED <<violates, creds, script, conns>>
 Status == /\ pc = "status"
@@ -63,7 +63,7 @@ AtMostOnePost == Len(requests) <= 1
 OkOnlyIf == (pc = "ret" /\ result = "ok") =>
                /\ Len(requests) = 1 /\ requests[1].method = "POST"
                /\ script.k = "reply" /\ script.status \in 200..299 /\ Parses(script.body)
-AuthIffCreds == \A i \in 1..Len(requests) : requests[i].auth = creds
+AuthIffCreds == \A i \in 1..Len(requests) : requests[i].auth = (creds # "none")
 NothingSentOnViolation == (pc = "ret" /\ violates) => (conns = 0 /\ requests = <<>> /\ result = "err_restriction")
 FailuresAreErrors == (pc = "ret" /\ ~(script.k = "reply" /\ script.status \in 200..299 /\ Parses(script.body)) /\ ~violates) => result \in {"err_http", "err_yaserde"}
 Returns == <>(pc = "ret")
